@@ -100,6 +100,14 @@ fn scenario(ctx: &Ctx, idx: u64) -> Report {
                 announce_port: cfg.announce_port,
             });
         }
+        // API calls racing the deliveries on every node (short horizons only: the bursts are per
+        // delivered datagram)
+        if horizon_class == 0 && rng.gen_bool(0.4) {
+            for nd in &nodes {
+                crate::world::api_hammer(&net, &nd.dht, nd.addr, seed ^ nd.addr.port() as u64, 0.05, 20_000);
+            }
+            report.count("networks_with_api_callers_racing_deliveries");
+        }
         report.evaluations += 1;
         for nd in &nodes {
             let ok = tokio::time::timeout(Duration::from_secs(600), nd.dht.bootstrapped()).await.unwrap_or(false);
